@@ -11,6 +11,7 @@ import (
 
 	cfg "github.com/lianxiangcloud/linkchain/config"
 	"github.com/lianxiangcloud/linkchain/libs/common"
+	lk "github.com/lianxiangcloud/linkchain/libs/cryptonote/types"
 	mempl "github.com/lianxiangcloud/linkchain/mempool"
 	"github.com/lianxiangcloud/linkchain/types"
 
@@ -34,6 +35,10 @@ type MTx struct {
 	AcceptedAt time.Duration // virtual time of the (last) acceptance
 	StaleAtGen bool          // nonce below the committed nonce when generated
 	External   bool          // never submitted to the node's mempool by the generator
+	// Pure: no account input (a hidden -> hidden/account spend); KIs: its key images.
+	Pure bool
+	KIs  []lk.Key
+	Ins  []*Owned
 	// BasicOK: passes the basic check by construction (well-formed, legal gas).
 	BasicOK bool
 	// Uncovered: when its turn came the sender's balance did not cover it.
@@ -57,7 +62,19 @@ type Options struct {
 	AtEnd func(e *Engine)
 	// Config lets the caller adjust the drawn run configuration.
 	Config func(rc *RunCfg, t *kernel.Tape)
+	// AfterStep is called after every driver step (after the offer oracle).
+	AfterStep func(e *Engine)
+	// UTXOShare {num, den}: share of runs with confidential transactions ({0,0}: 2/5).
+	UTXOShare [2]int
+	// NonTrivial adds a condition to the engine's non-triviality rule.
+	NonTrivial func(e *Engine) bool
 }
+
+// Block is the chain's block type (for callers that only import this package).
+type Block = types.Block
+
+// KeyImages returns the key images a transaction spends.
+func KeyImages(tx types.Tx) []lk.Key { return keyImages(tx) }
 
 // RunCfg is the drawn configuration of one run.
 type RunCfg struct {
@@ -67,7 +84,9 @@ type RunCfg struct {
 	Tight    bool // small pool/queue/reap limits: single-queuer discipline
 	Evict    bool // virtual time may pass the eviction lifetimes
 	UseCache bool
-	W        struct{ Next, Future, Stale, Conflict, Dup, Under, Over, BadGas int }
+	UTXO     bool // confidential transactions in the mix
+	Wallets  int
+	W        struct{ Next, Future, Stale, Conflict, Dup, Under, Over, BadGas, Fund, Spend, SpendAcc, KIConflict, KIDup int }
 	A        struct{ Start, Release, Reap, Block, Tick, Extra int }
 	ExtRate  int // of 8: share of block steps that build another proposer's block
 	HeavyPct int // of 8: share of steps that also run the execute-the-offer oracle
@@ -95,8 +114,12 @@ type Engine struct {
 	trace    []string
 	steps    int
 
+	U        *UtxoState            // nil: no confidential transactions in this run
+	livePure map[common.Hash]*MTx // accepted spends without account input the oracle still demands
+
 	offered     types.Txs // last full reap
 	offeredBy   map[common.Address][]types.Tx
+	offeredPure []types.Tx
 	poolWasFull bool
 
 	dropGood    time.Duration
@@ -217,6 +240,20 @@ func drawCfg(c *kernel.Ctx, opt Options) RunCfg {
 	w.Next, w.Future, w.Stale, w.Conflict, w.Dup, w.Under, w.Over, w.BadGas = 10, t.Range(0, 6), t.Range(0, 3), t.Range(0, 3), t.Range(0, 4), t.Range(0, 2), t.Int(2), t.Int(2)
 	a := &rc.A
 	a.Start, a.Release, a.Reap, a.Block, a.Tick = 10, t.Range(6, 14), t.Range(1, 3), t.Range(1, 5), t.Range(0, 2)
+	share := opt.UTXOShare
+	if share[1] == 0 {
+		share = [2]int{2, 5}
+	}
+	if UtxoReady() && t.Bool(share[0], share[1]) {
+		rc.UTXO = true
+		rc.Wallets = t.Range(2, 3)
+		w.Fund, w.Spend, w.SpendAcc, w.KIConflict, w.KIDup = t.Range(1, 3), t.Range(3, 8), t.Range(0, 3), t.Range(1, 4), t.Int(2)
+		// the funder must be able to pay hidden amounts
+		rc.World.Balances[0] = new(big.Int).Mul(big.NewInt(1e18), big.NewInt(1000000))
+		if t.Bool(1, 3) {
+			mc.UTXOSize = []int{1, 2, 3}[t.Int(3)]
+		}
+	}
 	rc.ExtRate = t.Range(0, 5)
 	rc.HeavyPct = t.Range(1, 4)
 	if opt.Extra != nil {
@@ -243,6 +280,14 @@ func Run(c *kernel.Ctx, opt Options) {
 		e.W = w
 		defer w.Cleanup()
 		w.OnCommitted = e.onCommitted
+		e.livePure = map[common.Hash]*MTx{}
+		if rc.UTXO {
+			seedCrypto(c.Tape.Fork("xcrypto"))
+			e.U = newUtxoState(rc.Wallets)
+			if !e.bootstrapUTXO() {
+				return
+			}
+		}
 		e.run()
 		e.finish()
 	})
@@ -372,8 +417,8 @@ func (e *Engine) nextFree(u *User) uint64 {
 		}
 	}
 	for _, tx := range e.offeredBy[u.Addr] {
-		if t, ok := tx.(*types.Transaction); ok {
-			used[t.Nonce()] = true
+		if _, n, _, ok := AcctPart(tx); ok {
+			used[n] = true
 		}
 	}
 	n := e.committedNonce(u.Addr)
@@ -420,7 +465,7 @@ func (e *Engine) inflightOf(a common.Address) int {
 
 // queueAffecting classifies a planned submission of m.
 func (e *Engine) queueAffecting(m *MTx) bool {
-	if !m.BasicOK {
+	if !m.BasicOK || m.Pure {
 		return false
 	}
 	c := e.committedNonce(m.From)
@@ -467,14 +512,23 @@ func (e *Engine) recipient(t *kernel.Tape, not *User) common.Address {
 	return e.W.Sinks[t.Int(len(e.W.Sinks))]
 }
 
-func (e *Engine) record(u *User, tx *types.Transaction, kind string) *MTx {
+func (e *Engine) record(u *User, tx types.Tx, kind string) *MTx {
 	h := tx.Hash()
 	if m := e.byHash[h]; m != nil {
 		return m
 	}
-	m := &MTx{Seq: len(e.all), Tx: tx, Hash: h, From: u.Addr, User: u.Idx, Nonce: tx.Nonce(), Cost: Cost(tx), Kind: kind}
-	m.StaleAtGen = m.Nonce < e.committedNonce(u.Addr)
-	m.BasicOK = kind != "over" && kind != "badgas"
+	m := &MTx{Seq: len(e.all), Tx: tx, Hash: h, User: -1, Kind: kind, Cost: new(big.Int)}
+	if from, nonce, cost, ok := AcctPart(tx); ok {
+		m.From, m.Nonce, m.Cost = from, nonce, cost
+		if x := e.W.UserByAddr(from); x != nil {
+			m.User = x.Idx
+		}
+		m.StaleAtGen = m.Nonce < e.committedNonce(from)
+	} else {
+		m.Pure = true
+	}
+	m.KIs = keyImages(tx)
+	m.BasicOK = kind != "over" && kind != "badgas" && kind != "kidup"
 	e.all = append(e.all, m)
 	e.byHash[h] = m
 	return m
@@ -485,7 +539,9 @@ func (e *Engine) record(u *User, tx *types.Transaction, kind string) *MTx {
 func (e *Engine) remaining(a common.Address) *big.Int {
 	r := new(big.Int).Set(e.W.Led.Get(a).Balance)
 	for _, tx := range e.offeredBy[a] {
-		r.Sub(r, Cost(tx))
+		if _, _, c, ok := AcctPart(tx); ok {
+			r.Sub(r, c)
+		}
 	}
 	return r
 }
@@ -496,7 +552,7 @@ func (e *Engine) gen() *MTx {
 	t := e.Work
 	w := e.Cfg.W
 	u := e.W.Users[t.Int(len(e.W.Users))]
-	kind := []string{"next", "future", "stale", "conflict", "dup", "under", "over", "badgas"}[t.Pick(w.Next, w.Future, w.Stale, w.Conflict, w.Dup, w.Under, w.Over, w.BadGas)]
+	kind := []string{"next", "future", "stale", "conflict", "dup", "under", "over", "badgas", "fund", "spend", "spendacc", "kiconflict", "kidup"}[t.Pick(w.Next, w.Future, w.Stale, w.Conflict, w.Dup, w.Under, w.Over, w.BadGas, w.Fund, w.Spend, w.SpendAcc, w.KIConflict, w.KIDup)]
 	amt := e.amount(t)
 	to := e.recipient(t, u)
 	gap := uint64(t.Range(1, 3))
@@ -504,6 +560,15 @@ func (e *Engine) gen() *MTx {
 	c := e.committedNonce(u.Addr)
 	var m *MTx
 	switch kind {
+	case "fund", "spend", "spendacc", "kiconflict", "kidup":
+		m = e.genUTXO(kind, u, pick)
+		if m != nil && m.Pure {
+			return m
+		}
+		if m != nil && m.User >= 0 {
+			u = e.W.Users[m.User]
+			c = e.committedNonce(u.Addr)
+		}
 	case "dup":
 		if len(e.all) > 0 {
 			// recent ones more often
@@ -512,9 +577,11 @@ func (e *Engine) gen() *MTx {
 			if src.External && !e.isCommitted(src) {
 				break
 			}
-			m = &MTx{Seq: src.Seq, Tx: src.Tx, Hash: src.Hash, From: src.From, User: src.User, Nonce: src.Nonce, Cost: src.Cost, Kind: "dup", BasicOK: src.BasicOK}
-			m.StaleAtGen = m.Nonce < e.committedNonce(m.From)
-			u = e.W.Users[src.User]
+			m = &MTx{Seq: src.Seq, Tx: src.Tx, Hash: src.Hash, From: src.From, User: src.User, Nonce: src.Nonce, Cost: src.Cost, Kind: "dup", BasicOK: src.BasicOK, Pure: src.Pure, KIs: src.KIs, Ins: src.Ins}
+			m.StaleAtGen = !m.Pure && m.Nonce < e.committedNonce(m.From)
+			if src.User >= 0 {
+				u = e.W.Users[src.User]
+			}
 		}
 	case "stale":
 		if c > 0 {
@@ -635,6 +702,9 @@ func (e *Engine) run() {
 			return
 		}
 		e.oracle(e.Sch.Int(8) < e.Cfg.HeavyPct)
+		if e.Opt.AfterStep != nil && !e.Stopped() {
+			e.Opt.AfterStep(e)
+		}
 	}
 }
 
@@ -659,11 +729,23 @@ func (e *Engine) stepStart() {
 func (e *Engine) Submit(m *MTx, parkBefore, parkAfter bool) *Submission {
 	e.subSeq++
 	f := &flight{m: m, qa: e.queueAffecting(m)}
-	staleAtStart := m.Nonce < e.committedNonce(m.From)
+	staleAtStart := !m.Pure && m.Nonce < e.committedNonce(m.From)
 	committedAtStart := e.isCommitted(m)
+	spentAtStart := false
+	if e.U != nil {
+		for _, k := range m.KIs {
+			if _, ok := e.U.KICommitted[k]; ok {
+				spentAtStart = true
+			}
+		}
+	}
 	f.sub = e.W.Start(e.subSeq, m.Tx, parkBefore, parkAfter)
-	f.sub.Tag = [2]bool{staleAtStart, committedAtStart}
-	e.Tracef("start #%d u%d n%d %s %s", e.subSeq, m.User, m.Nonce, m.Kind, short(m.Hash))
+	f.sub.Tag = [3]bool{staleAtStart, committedAtStart, spentAtStart}
+	if m.Pure {
+		e.Tracef("start #%d pure %s %s ki=%s", e.subSeq, m.Kind, short(m.Hash), kiLabel(m.KIs))
+	} else {
+		e.Tracef("start #%d u%d n%d %s %s", e.subSeq, m.User, m.Nonce, m.Kind, short(m.Hash))
+	}
 	e.C.Probe("submit-" + m.Kind)
 	e.inflight = append(e.inflight, f)
 	e.collect()
@@ -698,7 +780,7 @@ func (e *Engine) onDone(f *flight) {
 		m = x
 	}
 	err := f.sub.Err()
-	tag := f.sub.Tag.([2]bool)
+	tag := f.sub.Tag.([3]bool)
 	if err == nil {
 		e.Tracef("done #%d accepted", f.sub.ID)
 		e.C.Probe("accepted-" + f.m.Kind)
@@ -713,6 +795,24 @@ func (e *Engine) onDone(f *flight) {
 			if e.Violate("stale-accepted", "mempool-accepts-consumed-nonce", "AddTx returned nil for %s (u%d nonce %d) although the sender's committed nonce was already %d when the submission started", short(m.Hash), m.User, m.Nonce, e.committedNonce(m.From)) {
 				return
 			}
+		}
+		if tag[2] && !tag[1] {
+			if e.Violate("spent-accepted", "mempool-accepts-spent-key-image", "AddTx returned nil for %s whose key image %s was already committed (in %s) when the submission started", short(m.Hash), kiLabel(m.KIs), e.spentIn(m)) {
+				return
+			}
+		}
+		if m.Kind == "kidup" || (f.m.Kind == "kidup") {
+			if e.Violate("kidup-accepted", "mempool-accepts-duplicate-key-image-in-tx", "AddTx returned nil for %s which carries the same key image twice", short(m.Hash)) {
+				return
+			}
+		}
+		if m.Pure {
+			if !e.isCommitted(m) && !e.anySpent(m) {
+				m.Accepted = true
+				m.AcceptedAt = e.now()
+				e.livePure[m.Hash] = m
+			}
+			return
 		}
 		if !e.isCommitted(m) && m.Nonce >= e.committedNonce(m.From) {
 			e.addLive(m)
@@ -739,6 +839,12 @@ func errName(err error) string {
 		return "oversized"
 	case types.ErrGasLimitOrGasPrice:
 		return "gas"
+	case types.ErrUtxoTxDoubleSpend:
+		return "double-spend"
+	case types.ErrCheckDupKeyImage:
+		return "dup-key-image-in-tx"
+	case types.ErrUtxoTxFeeTooLow:
+		return "utxo-fee"
 	}
 	return "other"
 }
@@ -813,6 +919,9 @@ func (e *Engine) describe(b *types.Block) string {
 
 func (e *Engine) txLabel(tx types.Tx) string {
 	if m := e.byHash[tx.Hash()]; m != nil {
+		if m.Pure {
+			return fmt.Sprintf("spend/%s/ki=%s", short(m.Hash), kiLabel(m.KIs))
+		}
 		return fmt.Sprintf("u%d/n%d/%s", m.User, m.Nonce, short(m.Hash))
 	}
 	return short(tx.Hash())
@@ -846,9 +955,15 @@ func (e *Engine) commit(b *types.Block, what string) *types.Block {
 func (e *Engine) onCommitted(b *types.Block) {
 	for _, tx := range b.Data.Txs {
 		if m := e.byHash[tx.Hash()]; m != nil {
-			e.dropLive(m)
+			if m.Pure {
+				m.Accepted = false
+				delete(e.livePure, m.Hash)
+			} else {
+				e.dropLive(m)
+			}
 		}
 	}
+	e.noteUtxoCommitted(b)
 	e.sinceCommit = true
 	if e.Opt.AfterCommit != nil {
 		e.Opt.AfterCommit(e, b)
@@ -880,11 +995,7 @@ func (e *Engine) externalBlock() {
 			k--
 		}
 		for _, tx := range off[:k] {
-			tr, ok := tx.(*types.Transaction)
-			if !ok {
-				break
-			}
-			if ok, _ := led.ApplyTransfer(u.Addr, tr); !ok {
+			if !led.ApplyTx(tx) {
 				break
 			}
 			txs = append(txs, tx)
@@ -916,6 +1027,61 @@ func (e *Engine) externalBlock() {
 			led.ApplyTransfer(u.Addr, cand)
 			txs = append(txs, CopyTx(cand))
 			e.C.Probe("external-tx")
+		}
+	}
+	if e.U != nil {
+		// confidential part: a subset of the offered spends, then possibly a
+		// rival spend this node has never seen
+		used := map[lk.Key]bool{}
+		pickR := t.Int(1 << 16)
+		wantRival := t.Bool(1, 2)
+		if wantRival && t.Bool(1, 2) {
+			// the rival first: the node's own spend of that output must go
+			if m := e.rivalSpend(pickR); m != nil {
+				for _, k := range m.KIs {
+					used[k] = true
+				}
+				txs = append(txs, CopyTx(m.Tx))
+				e.C.Probe("external-rival-spend")
+			} else if e.Stopped() {
+				return
+			}
+			wantRival = false
+		}
+		for _, tx := range e.offeredPure {
+			if !t.Bool(1, 2) {
+				continue
+			}
+			clash := false
+			for _, k := range keyImages(tx) {
+				if used[k] {
+					clash = true
+				}
+			}
+			if clash {
+				continue
+			}
+			for _, k := range keyImages(tx) {
+				used[k] = true
+			}
+			led.ApplyTx(tx)
+			txs = append(txs, tx)
+		}
+		if wantRival {
+			if m := e.rivalSpend(pickR); m != nil {
+				clash := false
+				for _, k := range m.KIs {
+					if used[k] {
+						clash = true
+					}
+				}
+				if !clash {
+					txs = append(txs, CopyTx(m.Tx))
+					e.C.Probe("external-rival-spend")
+				}
+			} else if e.Stopped() {
+				return
+			}
 		}
 	}
 	b, site, msg, panicked := e.W.Propose(0, txs, true)
@@ -967,6 +1133,9 @@ func (e *Engine) finish() {
 				break
 			}
 			e.oracle(false)
+			if e.Opt.AfterStep != nil && !e.Stopped() {
+				e.Opt.AfterStep(e)
+			}
 		}
 		if !e.Stopped() && e.Opt.AtEnd != nil {
 			e.Opt.AtEnd(e)
@@ -981,7 +1150,7 @@ func (e *Engine) finish() {
 
 	c := e.C
 	nBlocks, nTx := len(e.W.Blocks), len(e.W.Committed)
-	if nTx >= 3 && nBlocks >= 2 {
+	if nTx >= 3 && nBlocks >= 2 && (e.Opt.NonTrivial == nil || e.Opt.NonTrivial(e)) {
 		c.NonTrivial()
 	}
 	// order-insensitive fingerprint: committed set per block, final ledger
@@ -1004,7 +1173,7 @@ func (e *Engine) finish() {
 	mc := e.W.Cfg.Mem
 	c.Sample(map[string]interface{}{
 		"users": len(e.W.Users), "vals": e.W.Cfg.NVals, "trie": e.W.Cfg.IsTrie, "cache": e.Cfg.UseCache, "tight": e.Cfg.Tight, "evict": e.Cfg.Evict,
-		"size": mc.Size, "future": mc.FutureSize, "maxReap": mc.MaxReapSize, "acctQueue": mc.AccountQueue, "removeFuture": mc.RemoveFutureTx,
+		"size": mc.Size, "future": mc.FutureSize, "maxReap": mc.MaxReapSize, "acctQueue": mc.AccountQueue, "removeFuture": mc.RemoveFutureTx, "utxo": e.Cfg.UTXO, "utxoSize": mc.UTXOSize,
 		"steps": e.steps, "blocks": nBlocks, "committed": nTx, "generated": len(e.all), "trace": e.trace,
 	})
 }
